@@ -197,6 +197,10 @@ def quick_plans(rng, thorough):
         add("V5R5", ou_extra=79)
         add("V4R4", user="p\xe4ss".encode("latin-1").hex(), owner="\xf6wner".encode("latin-1").hex(), tag="latin1")
         add("V5R5", user="p\xe4ss".encode("utf-8").hex(), owner="\xf6wner".encode("utf-8").hex(), tag="utf8")
+        # a crypt filter whose method is None: /CFM left out (Table 25: default None) or written out as /CFM /None
+        add("V4R4", stm="0", str="1", identity_style="none-cfm", none_style="default", n_overrides=1, extra_cf=[[b"ExtraN".hex(), "0"]])
+        add("V4R4", stm="0", str="1", identity_style="none-cfm", none_style="explicit", n_overrides=0, extra_cf=[])
+        add("V5R5", stm="3", str="0", identity_style="none-cfm", none_style="explicit", n_overrides=0, extra_cf=[])
     # R6: fixed secrets (memoised extracted results in the quick tier)
     for k, lay in enumerate(("classic", "objstm") if not thorough else ("classic", "objstm", "classic")):
         over = dict(R6_FIXED)
@@ -304,6 +308,17 @@ def read_encrypted_output(path, key_hex, run):
     root = info["root"]
     cat = info["objs"].get((root.n, root.g), (None, 0))[0] if isinstance(root, Ref) else None
     problems = []
+    clear_meta = None        # the catalog's metadata stream when /EncryptMetadata is false: its data is not encrypted
+    if not info["encmeta"]:
+        c2 = cat
+        if c2 is None and isinstance(root, Ref):
+            # catalog inside an object stream: find it after the containers are decrypted (below); metadata streams are top level
+            for og in info["order"]:
+                o, off = info["objs"][og]
+                if isinstance(o, Stream) and o.d.get(b"Type") == Name(b"Metadata") and o.d.get(b"Subtype") == Name(b"XML"):
+                    pass
+        if isinstance(c2, dict) and isinstance(c2.get(b"Metadata"), Ref):
+            clear_meta = (c2[b"Metadata"].n, c2[b"Metadata"].g)
 
     def rebuild(o, og, path_):
         if isinstance(o, Str):
@@ -333,6 +348,9 @@ def read_encrypted_output(path, key_hex, run):
                     continue
                 pending.append((o.d, pt))
                 continue
+            if og == clear_meta:
+                objs[og] = Stream(rebuild(o.d, og, ()), o.data)
+                continue
             objs[og] = Stream(rebuild(o.d, og, ()), pt if pt is not None else o.data)
             if pt is None:
                 problems.append("stream %r does not decrypt" % (og,))
@@ -346,14 +364,15 @@ def read_encrypted_output(path, key_hex, run):
             continue
         for num, io in inner.items():
             objs[(num, 0)] = io
-    # cleartext metadata: when /EncryptMetadata is false the catalog's metadata stream is not encrypted
+    # cleartext metadata with the catalog inside an object stream
     if cat is None and isinstance(root, Ref):
         cat = objs.get((root.n, root.g))
-    if not info["encmeta"] and isinstance(cat, dict) and isinstance(cat.get(b"Metadata"), Ref):
-        mog = (cat[b"Metadata"].n, cat[b"Metadata"].g)
-        raw = info["objs"].get(mog)
-        if raw is not None and isinstance(raw[0], Stream) and mog in objs:
-            objs[mog] = Stream(objs[mog].d, raw[0].data)
+        if not info["encmeta"] and isinstance(cat, dict) and isinstance(cat.get(b"Metadata"), Ref):
+            mog = (cat[b"Metadata"].n, cat[b"Metadata"].g)
+            raw = info["objs"].get(mog)
+            if raw is not None and isinstance(raw[0], Stream) and mog in objs:
+                objs[mog] = Stream(objs[mog].d, raw[0].data)
+                problems[:] = [p for p in problems if not p.startswith("stream %r does" % (mog,))]
     tr = None
     for t in info["trailers"]:
         if b"Root" in t:
@@ -445,9 +464,37 @@ def leaf_signature(ef, l):
     cls = leaf_class(ef, l)
     if cls.startswith("crypt-"):
         form = cls[6:]
-        if form in gen.FORMS_DEFAULTED:
+        if form in gen.FORMS_DEFAULTED and form != "noname":
             return SIG_PREFIX + "crypt-filter-defaults:" + form
+    if l.get("method") == "0" and l["kind"] not in ("s:m", "s:t") and ef.V >= 4 and ef.plan.get("none_style") == "explicit" and "0" in ef.cf.values():
+        # the leaf is governed by a crypt filter whose /CFM /None is written out
+        name = None
+        if l["path"] == ("stream",):
+            if l["num"] in ef.override:
+                name = ef.override[l["num"]][1]
+            elif not (l["num"] == ef.rootmeta and not ef.plan["em"]):
+                name = ef.stmf
+        else:
+            name = ef.strf
+        if name is not None and ef.cf.get(name) == "0":
+            return SIG_PREFIX + "cfm-none-explicit"
     return ""
+
+
+def file_signatures(ef):
+    """signatures of the known-finding input classes a file belongs to (for observations that cannot be attributed to one leaf)"""
+    sigs = []
+    if ef.V >= 4 and ef.plan.get("none_style") == "explicit" and "0" in ef.cf.values():
+        sigs.append(SIG_PREFIX + "cfm-none-explicit")
+    for n, (form, name) in sorted(ef.override.items()):
+        if form in gen.FORMS_DEFAULTED and form != "noname":
+            sigs.append(SIG_PREFIX + "crypt-filter-defaults:" + form)
+    return sigs
+
+
+def first_sig(ef):
+    s = file_signatures(ef)
+    return s[0] if s else ""
 
 
 def open_signature(ef, role, pw):
@@ -464,6 +511,8 @@ def part_files(chk, run, drv, perms_spec):
     thorough = chk.tier == "thorough"
     work = common.workdir("C06")
     plans = quick_plans(rng, thorough)
+    if os.environ.get("C06_SKIP_R6"):
+        plans = [p for p in plans if p["scheme"] != "V5R6"]
     if os.environ.get("C06_ONLY"):
         keep = set(int(x) for x in os.environ["C06_ONLY"].split(","))
         plans = [p for p in plans if p["idx"] in keep]
@@ -534,7 +583,11 @@ def judge_files(chk, efs, run, drv, work, rng, perms_spec=None, cli=True):
         # --- tie: model of initialize() vs the library
         if im["ok"]:
             got = "ok %s %s %s %s %s %s %s" % (im["V"], im["R"], im["P"], im["methods"], im["key"], im["um"], im["om"])
-            mod = "ok %s %s %s %s %s %s %s" % (mf[1], mf[2], mf[3], mf[6] + mf[7] + mf[8], mf[9], mf[11], mf[12]) if mf[0] == "ok" else mo[:200]
+            mm = (mf[6] + mf[7] + mf[8]) if mf[0] == "ok" else ""
+            # an unknown method is replaced by AES at the first string / stream that meets it (decryptString / decryptStream): which
+            # objects were read by the time the methods are queried is not modelled
+            mm = "".join(b if (a == "u" and b == "a") else a for a, b in zip(mm, im["methods"]))
+            mod = "ok %s %s %s %s %s %s %s" % (mf[1], mf[2], mf[3], mm, mf[9], mf[11], mf[12]) if mf[0] == "ok" else mo[:200]
             if mf[0] == "ok":
                 got += " " + im["perms"] + " " + im["upw"] + " " + im["padded"] + " warn=" + ("perms" if "/Perms" in im["warnings"] else "-")
                 mod += " " + mf[14] + " " + mf[15] + " " + mf[10] + " warn=" + ("perms" if "perms" in mf[13] else "-")
@@ -584,7 +637,7 @@ def judge_files(chk, efs, run, drv, work, rng, perms_spec=None, cli=True):
             if (got if got is not None else "absent") != mgot and not (got or "").startswith("!"):
                 leaf_tie.append((describe(ef, role, pw), k, l["kind"], (got or "absent")[:120], mo[:160]))
             # method selection: the model's crypt filter method against the ISO rule the encryptor applied
-            if mf[0] == "ok" and mf[3] != l.get("method") and not leaf_signature(ef, l):
+            if got == want and mf[0] == "ok" and mf[3] != l.get("method") and not leaf_signature(ef, l):
                 leaf_tie.append((describe(ef, role, pw), k, l["kind"], "iso method " + str(l.get("method")), "model method " + mf[3]))
     if leaf_tie:
         t = leaf_tie[0]
@@ -728,17 +781,20 @@ def cli_part(chk, efs, run, drv, work, rng):
         exists = outp is not None and os.path.exists(outp) and os.path.getsize(outp) > 0
         if not valid:
             if rc != 2 or (outp and os.path.exists(outp)):
-                bad("a wrong password must give exit 2 and no output file (exit %d, output %s)" % (rc, "exists" if outp and os.path.exists(outp) else "absent"))
+                bad("a wrong password must give exit 2 and no output file (exit %d, output %s)" % (rc, "exists" if outp and os.path.exists(outp) else "absent"),
+                    signature=SIG_PREFIX + "copy-encryption-wrong-password-creates-output" if (kind == "copyenc" and rc == 2 and os.path.getsize(outp) == 0) else "")
             elif "invalid password" not in err:
                 bad("exit 2 without the password error message")
             continue
         if rc not in (0, 3) or not exists:
+            if not sig and kind in ("preserve", "copyenc") and ef.plan.get("length_style") == "absent" and ef.V in (2, 4):
+                sig = SIG_PREFIX + "preserve-without-length"
             bad("a valid password / the file key: exit %d, output %s" % (rc, "present" if exists else "absent"), signature=sig)
             continue
         if rc == 3 and not sig:
-            s3 = ""
-            for l in ef.leaves:
-                s3 = s3 or leaf_signature(ef, l)
+            s3 = first_sig(ef)
+            if kind in ("preserve", "copyenc") and ef.plan.get("length_style") == "absent" and ef.V in (2, 4, 5):
+                s3 = SIG_PREFIX + "preserve-without-length"
             bad("warnings while reading a well-formed encrypted file", signature=s3)
         if kind == "decrypt":
             to_strict.append(outp)
@@ -753,16 +809,12 @@ def cli_part(chk, efs, run, drv, work, rng):
             except Exception as e:
                 why = "qpdf JSON unreadable: %r" % e
             if why:
-                s3 = ""
-                for l in ef.leaves:
-                    s3 = s3 or leaf_signature(ef, l)
+                s3 = first_sig(ef)
                 bad("--json-output differs from the plaintext document: " + why, signature=s3)
     # decrypted outputs: strict reader + isomorphism
     sres = filecheck.strict_read(to_strict)
     for path, r, (ef, role, pw, case, kind) in zip(to_strict, sres, strict_meta):
-        s3 = ""
-        for l in ef.leaves:
-            s3 = s3 or leaf_signature(ef, l)
+        s3 = first_sig(ef)
         if not r.get("ok"):
             chk.violation({"kind": "property-fails-on-implementation", "part": "cli-decrypt", "what": "--decrypt output is not strictly readable: %s" %
                            filecheck.ERR.get(r.get("code"), r.get("code")), "case": case})
@@ -779,12 +831,10 @@ def cli_part(chk, efs, run, drv, work, rng):
     def runner_plain(lines):
         return run(lines, shards=4)
     for ef, role, pw, case, kind, outp in enc_outs:
-        s3 = ""
-        for l in ef.leaves:
-            s3 = s3 or leaf_signature(ef, l)
+        s3 = first_sig(ef)
         if role == "hexkey" and ef.V < 5 and kind == "preserve":
             s3 = SIG_PREFIX + "hex-key-preserve-v4"
-        if ef.plan.get("length_style") == "absent" and ef.V in (2, 4):
+        if ef.plan.get("length_style") == "absent" and ef.V in (2, 4, 5):
             s3 = SIG_PREFIX + "preserve-without-length"
         try:
             objs, tr, info, problems = read_encrypted_output(outp, hexs(ef.key), runner_plain)
